@@ -315,8 +315,99 @@ func RunComposition(r *monitor.Run) {
 	_ = packets.Version5
 }
 
+// RedisCfg (set by the registration code) switches a configuration to the redis back end on a private fake redis.
+var RedisCfg func(c *config.Config) (func(), error)
+
+// RunRestored is part (c): the wrappers are also in effect for sessions the broker restores from a persistent
+// store at start-up (nobody has connected to them yet). A message dropped for such a session goes through every
+// plugin's OnMsgDropped wrapper, first plugin outermost, exactly once.
+func RunRestored(r *monitor.Run) {
+	if RedisCfg == nil {
+		return
+	}
+	registerPlugins()
+	order := []string{"verifB", "verifA", "verifC"}
+	var addr string
+	var closeRedis func()
+	start := func(tr *traceLog) (*broker.Broker, error) {
+		curTraceMu.Lock()
+		curTrace = tr
+		curTraceMu.Unlock()
+		return broker.Start(broker.Options{NoRecord: true, Hooks: coreHooks(tr), Cfg: func(c *config.Config) {
+			c.PluginOrder = order
+			c.MQTT.MaxQueuedMsg = 2
+			if addr == "" {
+				cl, err := RedisCfg(c)
+				if err != nil {
+					return
+				}
+				closeRedis, addr = cl, c.Persistence.Redis.Addr
+			} else {
+				c.Persistence.Type = config.PersistenceTypeRedis
+				c.Persistence.Redis.Addr = addr
+			}
+		}})
+	}
+	b1, err := start(&traceLog{})
+	if err != nil || addr == "" {
+		r.Inconclusive(fmt.Sprintf("restored-session broker: %v", err))
+		return
+	}
+	defer closeRedis()
+	c, err := wire.Dial("sleeper", b1.Addr, mqttx.V5)
+	if err != nil {
+		r.Inconclusive(err.Error())
+		return
+	}
+	e := uint32(3600)
+	_, _ = c.Connect(&mqttx.Packet{ClientID: "sleeper", CleanStart: true, Props: &mqttx.Props{SessionExpiry: &e}}, step)
+	if _, err := c.Subscribe([]mqttx.Sub{{Filter: "alarm/#", QoS: 1}}, 0, step); err != nil {
+		r.Inconclusive(err.Error())
+		return
+	}
+	c.Disconnect(0, nil)
+	time.Sleep(50 * time.Millisecond)
+	_ = b1.Stop(step)
+	tr := &traceLog{}
+	b2, err := start(tr)
+	if err != nil {
+		r.Inconclusive("restart on the same store: " + err.Error())
+		return
+	}
+	for i := 0; i < 4; i++ {
+		b2.Publish("alarm/x", fmt.Sprintf("m%d", i), 1, false) // the queue holds 2: two drops
+	}
+	time.Sleep(50 * time.Millisecond)
+	_ = b2.Stop(step)
+	r.Eval(1)
+	r.Count("restored_session_drops_checked", 1)
+	var seq []string
+	for _, ev := range tr.snapshot() {
+		if strings.HasSuffix(ev, " OnMsgDropped") {
+			seq = append(seq, ev)
+		}
+	}
+	want := []string{"enter verifB OnMsgDropped", "enter verifA OnMsgDropped", "enter verifC OnMsgDropped", "core OnMsgDropped", "leave verifC OnMsgDropped", "leave verifA OnMsgDropped", "leave verifB OnMsgDropped"}
+	drops := 0
+	for _, ev := range seq {
+		if ev == "core OnMsgDropped" {
+			drops++
+		}
+	}
+	ok := drops > 0 && len(seq) == drops*len(want)
+	for i := 0; ok && i < len(seq); i++ {
+		ok = seq[i] == want[i%len(want)]
+	}
+	if !ok {
+		r.Violation("compose.restored_session:OnMsgDropped", fmt.Sprintf("messages dropped for a session restored at start-up: OnMsgDropped trace %v, want %d x %v", seq, max(drops, 1), want), nil)
+		return
+	}
+	r.Nontrivial("restored-session-drops")
+}
+
 // Run is the entry point.
 func Run(r *monitor.Run) {
 	RunEnforcement(r)
 	RunComposition(r)
+	RunRestored(r)
 }
